@@ -289,6 +289,44 @@ def r05_4(run, model):
     run.floor("loops binding per-arm patterns", n, 2)
 
 
+NR_FILE = "crates/compiler/src/typer/name_resolution.rs"
+
+
+def binder_helpers(model):
+    """resolver methods that add exactly the binder they are given: `env.add(<own parameter>, ..)`; name -> index of that parameter among the call arguments"""
+    out = {}
+    for f in model.fns(NR_FILE):
+        if f.body is None or f.impl != "NameResolution":
+            continue
+        ps = [p["pat"]["name"] for p in f.params() if not p["self"] and p["pat"]["k"] == "PIdent"]
+        adds = [c for c in S.walk(f.body) if c["k"] == "MethodCall" and c["method"] == "add" and S.is_path(c["recv"], "env") and c["args"]]
+        if len(adds) != 1 or adds[0]["args"][0]["k"] not in ("Path", "Reference", "Unary"):
+            continue
+        ids = S.idents(adds[0]["args"][0])
+        own = [i for i, nm in enumerate(ps) if nm in ids]
+        item = any(re.search(r"ast::(Pat|Fn|ClosureParam)\b", p["ty"] or "") for p in f.params() if not p["self"])
+        if len(ids) == 1 and len(own) == 1 and not item:
+            out[f.name] = own[0]
+    return out
+
+
+def binder_sites(model):
+    """(function, node, name argument): every place a binder is introduced - a direct env.add outside the helpers, or a call of a helper"""
+    helpers = binder_helpers(model)
+    out = []
+    for f in model.fns(NR_FILE):
+        if f.body is None:
+            continue
+        for c in S.walk(f.body):
+            if c["k"] != "MethodCall" or not c["args"]:
+                continue
+            if c["method"] == "add" and S.is_path(c["recv"], "env") and f.name not in helpers:
+                out.append((f, c, c["args"][0]))
+            elif c["method"] in helpers and S.is_path(c["recv"], "self") and len(c["args"]) > helpers[c["method"]]:
+                out.append((f, c, c["args"][helpers[c["method"]]]))
+    return out
+
+
 def r05_5(run, model):
     run.rule("R05.5", "shadowing is always legal: a binder is added to the resolver environment without first looking its name up "
                       "(no `env.rfind(name)` before `env.add(name, ..)` in the same function); the closure environment is a copy of the "
@@ -309,7 +347,9 @@ def r05_5(run, model):
             run.ob("R05.5", f"{f.name}|binder `{at}` added without a prior lookup", not before, site(NR, a["sp"]),
                    f"env.add({at}, ..)" + (f" preceded by env.{before[0]['method']}({at}) at line {before[0]['sp'][0]}" if before else " is unconditional"),
                    witness="let x = 10; let f = |x| x + 1; is rejected with `duplicate parameter name x in closure`")
-    run.floor("binder insertions in the resolver", n, 3)
+    run.floor("binder insertions in the resolver", len(binder_sites(model)), 3)
+    if not n:
+        raise AnalysisIncomplete("no env.add(..) found in the resolver")
 
 
 def r05_6(run, model):
@@ -338,7 +378,9 @@ def r05_6(run, model):
             run.ob("R05.6", f"{f.name}|binder id is fresh", ok, site(NR, c["sp"]),
                    f"id passed to env.add comes from `{callee or S.norm_ws(run.facts.text(NR, src['sp']))[:40]}`",
                    witness="#[derive(ToJson)] struct Point { x: int32, y: int32 }: both pattern variables of the generated match become one local; to_json prints x twice")
-    run.floor("binder insertions in the resolver", n, 3)
+    run.floor("binder insertions in the resolver", len(binder_sites(model)), 3)
+    if not n:
+        raise AnalysisIncomplete("no env.add(..) found in the resolver")
 
 
 def r05_7(run, model):
@@ -463,20 +505,194 @@ def r05_10(run, model):
                        "`Constructor total not found in environment`")
 
 
+def r05_11(run, model):
+    run.rule("R05.11", "a function body sees its own parameters and nothing of another function: no function of the resolver that takes an "
+                       "item (`&ast::Fn`) also takes a local environment, and the environment in which such a function resolves the body "
+                       "is one it created itself (`ResolveLocalEnv::new()`)")
+    NR = "crates/compiler/src/typer/name_resolution.rs"
+    n = 0
+    for f in model.fns(NR):
+        if f.body is None or not any("ast::Fn" in (p["ty"] or "").replace(" ", "") for p in f.params() if not p["self"]):
+            continue
+        n += 1
+        envp = [p for p in f.params() if not p["self"] and "ResolveLocalEnv" in (p["ty"] or "")]
+        run.ob("R05.11", f"{f.name}|takes no local environment from its caller", not envp, site(NR, f.node["sp"]),
+               f"parameters of type ResolveLocalEnv: {len(envp)}",
+               witness="impl Counter { fn add(self, step: int32) .. fn next(self) { self.n + step() } } with a top-level fn step: the call in `next` "
+                       "resolves to add's parameter (`Variable step/1 not found in environment`)")
+        calls = [c for c in S.walk(f.body) if c["k"] == "MethodCall" and c["method"] == "resolve_expr"]
+        if not calls:
+            continue
+        fresh = {l["pat"]["name"] for l in S.find(f.body, "Local") if l["pat"]["k"] == "PIdent" and l.get("init") is not None and
+                 l["init"]["k"] == "Call" and (S.callee_segs(l["init"]) or [None, None])[-2:] == ["ResolveLocalEnv", "new"]}
+        for c in calls:
+            envs = [a for a in c["args"] if S.idents(a) & (fresh | {p["pat"].get("name") for p in envp if p["pat"]["k"] == "PIdent"})]
+            ok = bool(envs) and all(S.idents(a) & fresh for a in envs)
+            run.ob("R05.11", f"{f.name}|the body is resolved in an environment created here", ok, site(NR, c["sp"]),
+                   f"environments created in this function: {sorted(fresh) or 'none'}",
+                   witness="parameters of an earlier method of the same impl block stay visible in the later ones")
+    run.floor("resolver functions taking an item", n, 2)
+
+
+def r05_12(run, model):
+    run.rule("R05.12", "only a one-segment path can name a local binder: every function of the resolver that looks the last segment of a path "
+                       "up among the locals tests the path's length first (`Light::on` must stay the constructor when a parameter is called `on`)")
+    NR = "crates/compiler/src/typer/name_resolution.rs"
+    n = 0
+    for f in model.fns(NR):
+        if f.body is None:
+            continue
+        paths = [p["pat"]["name"] for p in f.params() if not p["self"] and p["pat"]["k"] == "PIdent" and re.search(r"ast::Path\b", p["ty"] or "")]
+        par = None
+        for c in S.walk(f.body):
+            if c["k"] != "MethodCall" or c["method"] != "rfind" or not c["args"]:
+                continue
+            recv_ty_env = any("ResolveLocalEnv" in (p["ty"] or "") and S.is_path(c["recv"], p["pat"].get("name")) for p in f.params() if not p["self"] and p["pat"]["k"] == "PIdent")
+            if not recv_ty_env:
+                continue
+            # which path does the looked-up identifier come from?
+            arg = c["args"][0]
+            src = set(S.idents(arg))
+            if par is None:
+                par = S.Parents(f.body)
+            for l in S.walk(f.body):
+                if l["k"] in ("Local",) and l.get("init") is not None and set(S.pat_bindings(l["pat"])) & src:
+                    src |= S.idents(l["init"])
+                elif l["k"] == "Let" and set(S.pat_bindings(l["pat"])) & src:
+                    src |= S.idents(l["expr"])
+                elif l["k"] == "MethodCall" and any(a["k"] == "Closure" and any(set(S.pat_bindings(i)) & src for i in a["inputs"]) for a in l["args"]):
+                    src |= S.idents(l["recv"])   # `path.last_ident().and_then(|ident| ..)`: the closure's parameter comes from the receiver
+            # paths bound by an enclosing match arm of an `ast::Expr::EPath { path, .. }` kind count as paths too
+            cand = [x for x in src if x in paths or x == "path" or x == "constructor"]
+            arm_paths = []
+            for a in par.ancestors(c):
+                if a["k"] == "Arm":
+                    arm_paths += [b for b in S.pat_bindings(a["pat"]) if b in src]
+            cand = sorted(set(x for x in cand if x in paths) | set(arm_paths))
+            if not cand:
+                continue
+            n += 1
+            ok = False
+            for pth in cand:
+                def is_len(e):
+                    return e["k"] == "MethodCall" and e["method"] == "len" and S.is_path(e["recv"], pth)
+
+                def one(e):
+                    return e["k"] == "Lit" and str(e.get("value")) == "1"
+                for iff in S.find(f.body, "If"):
+                    for b in S.walk(iff["cond"]):
+                        if b["k"] != "Binary":
+                            continue
+                        if not ((is_len(b["left"]) and one(b["right"])) or (is_len(b["right"]) and one(b["left"]))):
+                            continue
+                        if b["op"] in ("!=", "Ne") and (iff["sp"][0], iff["sp"][1]) < (c["sp"][0], c["sp"][1]) and any(x["k"] == "Return" for x in S.walk(iff["then"])):
+                            ok = True
+                        if b["op"] in ("==", "Eq") and S.span_contains(iff["then"]["sp"], c["sp"]):
+                            ok = True
+            run.ob("R05.12", f"{f.name}|lookup of the last segment of `{cand[0]}` is limited to one-segment paths", ok, site(NR, c["sp"]),
+                   f"lookup: {S.norm_ws(run.facts.text(NR, c['sp']))[:60]}",
+                   witness="enum Light { on, off } fn force_on(on: Light) -> Light { Light::on } returns its argument: the qualified constructor "
+                           "path is looked up among the locals by its last segment")
+    run.floor("local lookups of a path's last segment", n, 2)
+
+
+def r05_13(run, model):
+    run.rule("R05.13", "one pattern or parameter list binds a name once: every direct `env.add(name, ..)` of the resolver is preceded, in its "
+                       "function, by a test-and-insert of that name into the set of names the group has bound so far whose failure is "
+                       "reported; the set is handed down unchanged through nested patterns, and the elements of one parameter list share "
+                       "one set (no scoping rule orders two binders of one group, so `(x, x)` has no meaning to preserve)")
+    NR = NR_FILE
+    n = 0
+    group_fns = {}
+    for f in model.fns(NR):
+        if f.body is None:
+            continue
+        gp = [i for i, p in enumerate(q for q in f.params() if not q["self"]) if re.search(r"&mutHashSet<String>", (p["ty"] or "").replace(" ", ""))]
+        if gp:
+            group_fns[f.name] = (gp[0], [q for q in f.params() if not q["self"]][gp[0]]["pat"].get("name"))
+    for f in model.fns(NR):
+        if f.body is None:
+            continue
+        for c in S.walk(f.body):
+            if not (c["k"] == "MethodCall" and c["method"] == "add" and S.is_path(c["recv"], "env") and c["args"]):
+                continue
+            n += 1
+            name_ids = S.idents(c["args"][0])
+            ok, why = False, "no test of the name against the names already bound by the same pattern / parameter list"
+            for iff in S.find(f.body, "If"):
+                tests = [m for m in S.walk(iff["cond"]) if m["k"] == "MethodCall" and m["method"] in ("insert", "contains") and m["args"] and
+                         (S.idents(m["args"][0]) & name_ids)]
+                if not tests or (iff["sp"][0], iff["sp"][1]) > (c["sp"][0], c["sp"][1]):
+                    continue
+                reports = [x for x in S.walk(iff["then"]) if x["k"] == "MethodCall" and x["method"] in ("error", "push", "push_error", "ice")]
+                negated = any(u["k"] == "Unary" and any(t is x for x in S.walk(u) for t in tests) for u in S.walk(iff["cond"])) or tests[0]["method"] == "contains"
+                if reports and negated:
+                    ok, why = True, f"`{S.norm_ws(run.facts.text(NR, iff['cond']['sp']))[:50]}` reports the repeated name"
+            run.ob("R05.13", f"{f.name}|a binder is added only after its name was tested against its group", ok, site(NR, c["sp"]), why,
+                   witness="let (x, x) = t; match e { A(n, n) => n, .. }; fn f(a: int32, a: string) -> string { a }: accepted, the rightmost binder "
+                           "silently wins (the first one is typed, allocated and dropped)")
+    # threading of the group
+    m = 0
+    for f in model.fns(NR):
+        if f.body is None:
+            continue
+        par = None
+        for c in S.walk(f.body):
+            if c["k"] != "MethodCall" or c["method"] not in group_fns or not S.is_path(c["recv"], "self"):
+                continue
+            idx, _ = group_fns[c["method"]]
+            if len(c["args"]) <= idx:
+                continue
+            m += 1
+            arg = c["args"][idx]
+            own = group_fns.get(f.name, (None, None))[1]
+            if par is None:
+                par = S.Parents(f.body)
+            if f.name == c["method"]:
+                ok = own is not None and S.idents(arg) == {own}
+                run.ob("R05.13", f"{f.name}|nested patterns share the group of the enclosing pattern", ok, site(NR, c["sp"]),
+                       f"group argument of the recursive call: `{S.norm_ws(run.facts.text(NR, arg['sp']))[:40]}`",
+                       witness="A((x, y), x): the nested tuple gets a set of its own and the repeated x goes unnoticed")
+                continue
+            callee = model.fn(c["method"], NR)
+            recursive = any(True for _ in S.calls(callee.body, c["method"]))
+            if recursive:
+                continue   # the entry into a whole pattern: any set that is new for this pattern will do
+            # a one-binder callee: the elements of the list it is called for must share the set
+            loop = next((a for a in par.ancestors(c) if a["k"] in ("For", "Closure", "While")), None)
+            fresh_inline = any(x["k"] == "Call" and (S.callee_segs(x) or [None])[-1] in ("new", "default", "with_capacity") for x in S.walk(arg))
+            decl = [l for l in S.find(f.body, "Local") if l["pat"]["k"] == "PIdent" and l["pat"]["name"] in S.idents(arg)]
+            inside = loop is not None and any(S.span_contains(loop["sp"], l["sp"]) for l in decl)
+            ok = not (loop is not None and (fresh_inline or inside))
+            run.ob("R05.13", f"{f.name}|the binders of one list handed to {c['method']} share one group", ok, site(NR, c["sp"]),
+                   f"group argument: `{S.norm_ws(run.facts.text(NR, arg['sp']))[:40]}`" + ("; created anew for every element" if not ok else ""),
+                   witness="|q: int32, q: string| q: every parameter is tested against an empty set")
+    run.floor("binder insertions tested", n, 1)
+    run.anchor("group-threading calls examined", str(m))
+
+
 def run(run, model):
     run.try_rule(r05_7, model)
     run.try_rule(r05_6, model)
     run.try_rule(r05_8, model)
     run.try_rule(r05_9, model)
     run.try_rule(r05_10, model)
+    run.try_rule(r05_11, model)
+    run.try_rule(r05_12, model)
+    run.try_rule(r05_13, model)
     run.try_rule(r05_5, model)
     run.try_rule(r05_1, model)
     run.try_rule(r05_2, model)
     run.try_rule(r05_3, model)
     run.try_rule(r05_4, model)
-    run.assume("binders are introduced only by resolve_pat and resolve_closure_param (checked: these are the only callers of ResolveLocalEnv::add besides function parameters)")
-    f_add = [c for f in model.fns(NR) for c in S.calls(f.body, "add") if c["k"] == "MethodCall" and f.impl == "NameResolution"]
-    owners = sorted({f.name for f in model.fns(NR) if f.impl == "NameResolution" and any(c["k"] == "MethodCall" and S.is_path(c["recv"]) for c in S.calls(f.body, "add"))})
-    run.rule("R05.0", "binders enter the resolver environment only in resolve_fn (parameters), resolve_pat and resolve_closure_param")
-    run.ob("R05.0", "NameResolution|callers of ResolveLocalEnv::add", set(owners) <= {"resolve_fn", "resolve_pat", "resolve_closure_param"},
-           site(NR, None), f"functions adding binders: {owners}")
+    run.rule("R05.0", "binders enter the resolver environment only where a pattern, a parameter list or a closure parameter is resolved: every "
+                      "function that introduces a binder (env.add, directly or through a one-binder helper) takes an `&ast::Pat`, `&ast::Fn` or "
+                      "`&ast::ClosureParam`")
+    owners = {}
+    for f, c, _ in binder_sites(model):
+        owners.setdefault(f.name, f)
+    for name, f in sorted(owners.items()):
+        ok = any(re.search(r"ast::(Pat|Fn|ClosureParam)\b", p["ty"] or "") for p in f.params() if not p["self"])
+        run.ob("R05.0", f"{name}|introduces binders for a pattern or a parameter list", ok, site(NR, f.node["sp"]),
+               f"parameters: {[S.norm_ws(p['ty'] or '') for p in f.params() if not p['self']]}")
+    run.ob("R05.0", "NameResolution|functions introducing binders", 0 < len(owners) <= 3, site(NR, None), f"functions adding binders: {sorted(owners)}")
